@@ -355,6 +355,27 @@ func Batch(o Opts) int {
 	if len(total.Samples) > 3 {
 		total.Samples = total.Samples[:3]
 	}
+	// samples are there to show what a case looks like: keep them readable
+	var sampleView []any
+	for _, sc := range total.Samples {
+		c := sc.Clone()
+		note := ""
+		if len(c.Steps) > 40 {
+			note = fmt.Sprintf("%d steps in total, first 40 shown", len(c.Steps))
+			c.Steps = c.Steps[:40]
+		}
+		if len(c.Sched) > 40 {
+			note += fmt.Sprintf("; %d preemptions in total, first 40 shown", len(c.Sched))
+			c.Sched = c.Sched[:40]
+		}
+		for k, v := range c.Data {
+			if len(v) > 64 {
+				c.Data[k] = v[:64]
+				note += fmt.Sprintf("; data %q truncated to 64 of %d values", k, len(v))
+			}
+		}
+		sampleView = append(sampleView, map[string]any{"scenario": c, "note": note})
+	}
 	open := LoadFindings(o.Known)
 	code := 0
 	nviol := 0
@@ -454,7 +475,7 @@ func Batch(o Opts) int {
 		"distinct_nontrivial": len(sigs),
 		"nontrivial_runs":     total.Nontrivial,
 		"rule":                p.Rule(),
-		"samples":             total.Samples,
+		"samples":             sampleView,
 		"simulated_steps":     total.SimSteps,
 		"faults_fired":        total.Faults,
 		"probes":              total.Probes,
